@@ -26,11 +26,17 @@ type flashSpec struct {
 // bReport is what handler B observed.
 type bReport struct {
 	ran       bool
+	nMsg      int // len(Messages()), len(OldInputs()); only the first maxKeep are copied
+	nOld      int
 	messages  []fiber.FlashMessage
 	oldInputs []fiber.OldInputData
 	byKey     map[string]fiber.FlashMessage
 	oldByKey  map[string]fiber.OldInputData
 }
+
+// maxKeep bounds what handler B copies out of the context (the harness's own allocation inside
+// the measured window); scripts attach far fewer items.
+const maxKeep = 64
 
 type flashApp struct {
 	app      *fiber.App
@@ -73,10 +79,18 @@ func buildFlashApp(spec *flashSpec, lookKeys []string) *flashApp {
 	app.Get("/b", func(c fiber.Ctx) error {
 		rd := c.Redirect()
 		rep := &bReport{ran: true, byKey: map[string]fiber.FlashMessage{}, oldByKey: map[string]fiber.OldInputData{}}
-		for _, m := range rd.Messages() {
+		msgs, olds := rd.Messages(), rd.OldInputs()
+		rep.nMsg, rep.nOld = len(msgs), len(olds)
+		for i, m := range msgs {
+			if i == maxKeep {
+				break
+			}
 			rep.messages = append(rep.messages, fiber.FlashMessage{Key: strings.Clone(m.Key), Value: strings.Clone(m.Value), Level: m.Level})
 		}
-		for _, m := range rd.OldInputs() {
+		for i, m := range olds {
+			if i == maxKeep {
+				break
+			}
 			rep.oldInputs = append(rep.oldInputs, fiber.OldInputData{Key: strings.Clone(m.Key), Value: strings.Clone(m.Value)})
 		}
 		for _, k := range fa.lookKeys {
@@ -102,7 +116,9 @@ func (fa *flashApp) serveB(e *ev.Env, c *ev.Case, cookie []byte, hasCookie bool)
 		req = append(req, "\r\n"...)
 	}
 	req = append(req, "\r\n"...)
-	e.Journal("B " + hexOf(req))
+	if e.Quick() || e.Only != "" || (len(cookie) > 0 && cookie[0] >= 0xdc) {
+		e.Journal("B " + hexOf(req))
+	}
 	panicked = e.Guard(c, "flash", hexOf(req), func() { out, _ = fa.w.Serve(req, nil) })
 	if panicked {
 		return
@@ -255,6 +271,53 @@ func lenientFlash(out []byte) ([]byte, bool) {
 	return nil, false
 }
 
+// rawFlashValue cuts the flash cookie value out of the raw response: from the cookie name to the
+// attributes fiber appends to a session cookie (the value itself may contain any byte).
+func rawFlashValue(out []byte) ([]byte, bool) {
+	start := []byte("Set-Cookie: " + fiber.FlashCookieName + "=")
+	i := bytes.Index(out, start)
+	if i < 0 {
+		return nil, false
+	}
+	v := out[i+len(start):]
+	j := bytes.LastIndex(v, []byte("; path=/; SameSite=Lax\r\n"))
+	if j < 0 {
+		return nil, false
+	}
+	return v[:j], true
+}
+
+func diffEncoded(got, want []fmsg) string {
+	key := func(m fmsg, flag bool) string {
+		s := msgKey(m.Key, m.Value, m.Level)
+		if flag && m.Old {
+			s += "/old"
+		}
+		return s
+	}
+	cmp := func(flag bool) bool {
+		var g, w []string
+		for _, m := range got {
+			g = append(g, key(m, flag))
+		}
+		for _, m := range want {
+			w = append(w, key(m, flag))
+		}
+		sort.Strings(g)
+		sort.Strings(w)
+		return strings.Join(g, "\x00") == strings.Join(w, "\x00")
+	}
+	switch {
+	case cmp(true):
+		return ""
+	case len(got) != len(want):
+		return "count"
+	case cmp(false):
+		return "old-input-flag"
+	}
+	return "content"
+}
+
 func serverNow(r *strict.Response) time.Time {
 	if t, err := time.Parse("Mon, 02 Jan 2006 15:04:05 GMT", r.Get("Date")); err == nil {
 		return t
@@ -295,6 +358,8 @@ func anyString(r *gen.Rand, n int) string {
 		return r.StringFrom(gen.AlphaNum, n)
 	}
 }
+
+var flSeen struct{ complete, hostile int }
 
 func runFlash(e *ev.Env) {
 	setup(e)
@@ -443,7 +508,7 @@ func runFlash(e *ev.Env) {
 	})
 
 	// truncation of valid encodings at every offset
-	e.Cases("truncate-every-offset", e.N(400, 4000), func(c *ev.Case) {
+	e.Cases("truncate-every-offset", e.N(100, 4000), func(c *ev.Case) {
 		r := c.R
 		ms := make([]fmsg, r.Range(1, 3))
 		for i := range ms {
@@ -454,6 +519,15 @@ func runFlash(e *ev.Env) {
 			hostileCookie(e, c, "invalid", b[:off])
 		}
 	})
+
+	if e.Only == "" {
+		if flSeen.complete == 0 {
+			e.Inconclusive("no script with messages reached handler B in this shard")
+		}
+		if flSeen.hostile == 0 {
+			e.Inconclusive("no hostile cookie reached handler B in this shard")
+		}
+	}
 
 	// expected-fatal announcements, each in a child process (last: see survive.go)
 	for _, f := range []struct {
@@ -557,7 +631,9 @@ func flashScript(e *ev.Env, c *ev.Case, spec *flashSpec, reqA []byte) {
 	detail["with"] = ml
 
 	// ---- (1) handler A ---------------------------------------------------------------
-	e.Journal("A " + hexOf(reqA))
+	if e.Quick() || e.Only != "" {
+		e.Journal("A " + hexOf(reqA))
+	}
 	var out1 []byte
 	if e.Guard(c, "flash", detail, func() { out1, _ = fa.w.Serve(reqA, nil) }) {
 		return
@@ -573,6 +649,22 @@ func flashScript(e *ev.Env, c *ev.Case, spec *flashSpec, reqA []byte) {
 	e.Stat("scripts", 1)
 	if attached == 0 {
 		e.Stat("scripts_nothing_attached", 1)
+	}
+
+	// the bytes of the issued cookie, read with the reference decoder: whatever the client does
+	// with them, they must be a well-formed encoding of exactly what was attached
+	if attached > 0 {
+		if raw, ok := rawFlashValue(out1); !ok {
+			e.Violation(c, "flash|cookie-not-set", "no flash cookie in the response of the redirecting handler although "+itoa(attached)+" items were attached", detail)
+		} else if got, wf := mpWellFormed(raw); !wf {
+			detail["issued_cookie"] = show(raw)
+			e.Violation(c, "flash|issued-cookie-differs|not-a-well-formed-encoding", "the issued cookie is not a well-formed encoding of a message list", detail)
+		} else if what := diffEncoded(got, wantList(want, wantOld)); what != "" {
+			detail["issued_cookie"] = show(raw)
+			e.Violation(c, "flash|issued-cookie-differs|"+what, "the issued cookie does not encode what was attached", detail)
+		} else {
+			e.Stat("issued_cookie_encodes_attached", 1)
+		}
 	}
 
 	jar := &strict.Jar{}
@@ -707,12 +799,15 @@ func flashScript(e *ev.Env, c *ev.Case, spec *flashSpec, reqA []byte) {
 				}
 				e.Eval(1)
 				rep3 := *fa.rep
-				if perr3 == nil && len(rs3) == 1 && rep3.ran && len(rep3.messages)+len(rep3.oldInputs) > 0 {
+				if perr3 == nil && len(rs3) == 1 && rep3.ran && rep3.nMsg+rep3.nOld > 0 {
 					secondDelivery = true
 					e.Violation(c, "flash|delivered-twice", "the client still holds the cookie and the next request sees the messages again", detail)
 				}
 			}
 			if attached > 0 && len(want) > 0 {
+				flSeen.complete++
+				e.Stat("complete_scripts_with_messages", 1)
+				e.Sample("script", map[string]any{"with": ml, "client": client, "differs": what, "second_delivery": secondDelivery})
 				e.Nontrivial("script", itoa(len(want)), itoa(len(wantOld)), client, what, strconv.FormatBool(secondDelivery))
 			}
 		}
@@ -725,7 +820,7 @@ func flashScript(e *ev.Env, c *ev.Case, spec *flashSpec, reqA []byte) {
 	}
 	e.Eval(1)
 	rep4 := *fa.rep
-	if perr4 == nil && len(rs4) == 1 && rep4.ran && len(rep4.messages)+len(rep4.oldInputs) > 0 {
+	if perr4 == nil && len(rs4) == 1 && rep4.ran && rep4.nMsg+rep4.nOld > 0 {
 		e.Violation(c, "flash|messages-without-cookie", "a request without the flash cookie sees messages", detail)
 	}
 }
@@ -849,45 +944,45 @@ func hostileCookie(e *ev.Env, c *ev.Case, kind string, cookie []byte) {
 	view := serverView(cookie)
 	_, wellFormed := mpWellFormed(view)
 	if kind == "" || kind == "invalid" || kind == "nonconforming" {
-		if mpValidStream(view) {
-			kind = "nonconforming"
+		if rest, ok := mpSkip(view, 0); ok {
+			kind = "nonconforming" // MessagePack all right (possibly with bytes after it), not a message list
+			_ = rest
 		} else {
 			kind = "invalid"
 		}
 	}
 	spec := &flashSpec{}
-	mkApp := func() *fiber.App { return buildFlashApp(spec, nil).app }
+	var fa *flashApp
+	mkApp := func() *fiber.App { fa = buildFlashApp(spec, nil); return fa.app }
 	req := append(append([]byte("GET /b HTTP/1.1\r\nHost: flash.example.com\r\nCookie: "+fiber.FlashCookieName+"="), cookie...), "\r\n\r\n"...)
-	e.Journal("H " + hexOf(req))
+	if e.Quick() || e.Only != "" || (len(cookie) > 0 && cookie[0] >= 0xdc) {
+		e.Journal("H " + hexOf(req))
+	}
 	detail := map[string]any{"cookie_hex": hexOf(cookie), "cookie": show(cookie), "kind": kind}
-	if c.ID[:6] != "corpus" && fatalCandidate(req) {
+	if c.ID[:6] != "corpus" && len(view) >= 5 && view[0] == 0xdd {
+		// array32 header as the server will see it: at least 2^29 announced elements
 		e.Stat("fatal_candidates", 1)
 		if !isolated(e, c, "wire.flash", hexOf(req)) {
 			return
 		}
 	}
 
-	// allocation on a fresh app (fresh context pool), twice
+	// allocation on a fresh app (fresh context pool), at least twice; the last run also tells
+	// what the handler saw
 	limit := budget(len(cookie))
-	d, _, panicked := measure(e, c, "flash", mkApp, req, limit, 4)
+	d, out, panicked := measure(e, c, "flash", mkApp, req, limit, 4)
 	if panicked {
 		return
 	}
+	e.Eval(1)
+	e.Stat("hostile_cookies", 1)
 	e.StatMax("max_alloc_hostile_cookie", int64(d))
 	if d > limit {
 		detail["allocated"], detail["budget"] = d, limit
 		e.Violation(c, "flash|decode-alloc", "a cookie of "+itoa(len(cookie))+" bytes made the server allocate "+strconv.FormatUint(d, 10)+" bytes (budget "+
 			strconv.FormatUint(limit, 10)+")", detail)
 	}
-
-	// what does the handler see
-	fa := buildFlashApp(spec, nil)
-	rs, perr, out, p := fa.serveB(e, c, cookie, true)
-	if p {
-		return
-	}
-	e.Eval(1)
-	e.Stat("hostile_cookies", 1)
+	rs, perr := strict.ParseAll(out, nil)
 	rep := *fa.rep
 	detail["response"] = show(out)
 	switch {
@@ -904,8 +999,10 @@ func hostileCookie(e *ev.Env, c *ev.Case, kind string, cookie []byte) {
 	case wellFormed:
 		e.Stat("hostile_accidentally_well_formed", 1)
 	default:
-		e.Nontrivial("hostile", kind, itoa(len(view)/4), itoa(len(rep.messages)), itoa(len(rep.oldInputs)))
-		if n := len(rep.messages) + len(rep.oldInputs); n > 0 {
+		flSeen.hostile++
+		e.Sample("hostile-"+kind, map[string]any{"cookie": show(cookie), "messages_seen": rep.nMsg, "old_inputs_seen": rep.nOld})
+		e.Nontrivial("hostile", kind, itoa(len(view)/4), itoa(min(rep.nMsg, 99)), itoa(min(rep.nOld, 99)))
+		if n := rep.nMsg + rep.nOld; n > 0 {
 			cls := "lenient-decoding-of-nonconforming-encoding"
 			if kind == "invalid" {
 				cls = "decode-error-keeps-partial-list"
